@@ -82,6 +82,15 @@ def vocabulary():
         g.lst([g.call(I("-"), [L(5)]), g.call(I("-"), [I("yy")]), g.call(I("-"), [I("aa")])])])))), ["rm"])
     add("frozen-minus", g.decl("rm", g.freeze(lam1(g.lst([g.call(I("-"), [L(5)]), g.call(I("-"), [I("yy")]), g.call(I("-"), [I("aa")])])))), ["rm"])
     add("call-rm", P(g.call(I("rm"), [L(1)])), [])
+    # operator chains: an operator's precedence travels with the value its name resolves to, so a frozen
+    # chain keeps the grouping of the moment it was frozen
+    ch = lambda: g.chain(I("aa"), "+", I("yy"), "*", L(3))
+    add("frozen-chain", g.decl("rc", g.freeze(lam1(ch()))), ["rc"])
+    add("plain-chain", g.decl("rd", lam1(ch())), ["rd"])
+    add("lower-times", g.setprec("*", L(1)), [])
+    add("restore-times", g.setprec("*", L(5)), [])
+    add("call-rc", P(g.call(I("rc"), [L(1)]), g.chain(L(1), "+", L(2), "*", L(3))), [])
+    add("call-rd", P(g.call(I("rd"), [L(1)])), [])
     # switch inside frozen code: each arm is a scope of its own; `literally e` is code in a pattern
     add("frozen-switch", g.decl("rw", g.freeze(lam1(g.switch(g.lst([I("aa"), I("yy")]), [
         (g.lv_tuple([g.lv_lit(0), g.lv_id("ww")]), g.binop("+", I("ww"), I("yy"))),
@@ -104,6 +113,7 @@ class FGen(c05gen.Gen):
     def __init__(self, rng, outer, max_nodes=45):
         super().__init__(rng, max_nodes)
         self.use_eval = False          # the argument of eval is data to freeze: not part of the property
+        self.fwd_refs = False          # a forward reference is free when the closure is frozen: no static freezer can know
         self.branch_scoped = True      # names declared in an if-branch / try body are not used outside it
         self.outer = set(outer)
         for n, k in outer.items():
